@@ -381,6 +381,18 @@ func ruleEmptyMessageRejected(c *Ctx) {
 			// len(args) for the vector the message is filled from
 			if id, ok := arg.(*ast.Ident); ok {
 				filled := false
+				// the vector itself, or the element variable of a range over it
+				from := map[types.Object]bool{info.ObjectOf(id): true}
+				ast.Inspect(rm.Decl.Body, func(y ast.Node) bool {
+					if rs, ok := y.(*ast.RangeStmt); ok {
+						if rid, ok := ast.Unparen(rs.X).(*ast.Ident); ok && info.ObjectOf(rid) == info.ObjectOf(id) {
+							if vid, ok := rs.Value.(*ast.Ident); ok {
+								from[info.ObjectOf(vid)] = true
+							}
+						}
+					}
+					return true
+				})
 				ast.Inspect(rm.Decl.Body, func(y ast.Node) bool {
 					as, ok := y.(*ast.AssignStmt)
 					if !ok || len(as.Lhs) != 1 || len(as.Rhs) != 1 {
@@ -391,7 +403,7 @@ func ruleEmptyMessageRejected(c *Ctx) {
 						return true
 					}
 					ast.Inspect(as.Rhs[0], func(z ast.Node) bool {
-						if zid, ok := z.(*ast.Ident); ok && info.ObjectOf(zid) == info.ObjectOf(id) {
+						if zid, ok := z.(*ast.Ident); ok && from[info.ObjectOf(zid)] {
 							filled = true
 						}
 						return true
